@@ -918,6 +918,8 @@ func (t *tr) libCall(c *ast.CallExpr, callee string) (string, T, bool) {
 			f = "Bytes.trimRightByte"
 		}
 		return "(" + f + " " + b + " " + arg(0) + ")", tStr, true
+	case "strings.Contains":
+		return "(GoRt.contains " + arg(0) + " " + arg(1) + ")", tBool, true
 	case "strings.IndexByte":
 		return "(GoRt.indexByte " + arg(0) + " " + arg(1) + ")", tInt, true
 	case "strings.Index":
@@ -1180,6 +1182,12 @@ func (t *tr) binary(x *ast.BinaryExpr) (string, T) {
 		v, vt := a, at
 		if at.Kind == "nil" {
 			v, vt = b, bt
+		}
+		if vt.Kind == "opaque" && vt.Lean == "Bool" { // an error value: true = non-nil
+			if x.Op == token.EQL {
+				return "(!" + v + ")", tBool
+			}
+			return v, tBool
 		}
 		if vt.Kind != "opaque" || !strings.HasPrefix(vt.Lean, "Option ") {
 			t.fail(x, "comparison of %s with nil", vt.Lean)
